@@ -53,6 +53,11 @@ func k9Expected(stem, cls string) (string, bool) {
 		return "if (1 > len($0))\n  panic(\"Max of empty slice is meaningless\")\nreturn Reduce_(Min_, $0[0], $0[1:]...)\n", true
 	case "SliceMax":
 		return "if (1 > len($0))\n  panic(\"Max of empty slice is meaningless\")\nreturn Reduce_(Max_, $0[0], $0[1:]...)\n", true
+	case "reduceDefault":
+		// middle-axis fold: per leading-axis slab ($4 = slab length) the outputs are walked in
+		// order; the input cursor %2 advances by 1 per output and, after every $5 (= stride)
+		// outputs, skips the remaining ($3 - 1) * $5 inputs of the reduced axis ($3 = its length).
+		return "%0 = 0\nfor ($2 > %0) ; %0 = (%0 + 1)\n  %1 = 0\n  for ($6 > %1) ; %1 = (%1 + 1)\n    $1[(%1 + ($6 * %0))] = $0[($4 * %0):($4 + ($4 * %0))][%2]\n    %3 = 1\n    for ($3 > %3) ; %3 = (%3 + 1)\n      $1[(%1 + ($6 * %0))] = $7($1[(%1 + ($6 * %0))], $0[($4 * %0):($4 + ($4 * %0))][(%2 + ($5 * %3))])\n    %4 = (%4 + 1)\n    if (%4 >= $5)\n      %4 = 0\n      %2 = (%2 + ($5 * ($3 - 1)))\n    %2 = (%2 + 1)\n", true
 	case "Reduce":
 		return "$ret0 = $1\nif (0 == len($2))\n  return \nrange $2 as @r\n  $ret0 = $0($ret0, $2[@r])\nreturn \n", true
 	}
@@ -60,7 +65,7 @@ func k9Expected(stem, cls string) (string, bool) {
 }
 
 func K9(rc *RC, fams map[string][]*Member, floor int) {
-	rc.S.Declare("K9", "reduction anchors: Sum/Prod/Argmax/Argmin(/Masked)/SliceMin/SliceMax/Reduce kernels equal the table's canonical definition (accumulator, initial value, strict comparison, mask skip)", floor)
+	rc.S.Declare("K9", "reduction anchors: Sum/Prod/Argmax/Argmin(/Masked)/SliceMin/SliceMax/Reduce/reduceDefault kernels equal the table's canonical definition (accumulator, initial value, strict comparison, mask skip)", floor)
 	for _, fam := range sortedFamilies(fams) {
 		if !strings.HasPrefix(fam, "internal/execution.") {
 			continue
